@@ -120,4 +120,63 @@ def stateSpec (good : Bytes) (want : Nat) (file : Bytes) (o : StateObs) : Option
     | .err => some .stateRestore
     | .ok k => if (ps.filter (· == good)).length == 1 && k != want then some .stateRestore else none
 
+/-! ## The state file as a whole: ConfigObject::DumpObjects / ConfigObject::RestoreObjects -/
+
+/-- configobject.cpp:465-503 DumpObjects: per object one dictionary {type, name, update}, `JsonEncode`d and written with
+    `NetString::WriteStringToStream` — no limit on the size of a record. -/
+def dumpObjects {N : Type} (c : NumCodec N) (recs : List (List (List Char × JValue N))) : Bytes :=
+  nsEncodeAll (recs.map (fun kvs => jsonEncode c (.obj kvs)))
+
+/-- configobject.cpp:547-562: the read loop of RestoreObjects — `NetString::ReadStringFromStream(sfp, &message, src)`,
+    i.e. WITHOUT a maximum length (the parameter defaults to -1) — over a file the stream delivers in `chunks`.
+    `none`: an exception of the reader leaves RestoreObjects (nothing after the damaged place is restored);
+    `some items`: the records handed to RestoreObject, in file order. -/
+def restoreItems (chunks : List Bytes) : Option (List Bytes) :=
+  match (nsReadAll none chunks).final with
+  | .eof => some (nsReadAll none chunks).items
+  | _ => none
+
+/-- Is the decoded record a dictionary (configobject.cpp:511)? -/
+def asDict {N : Type} : Option (JValue N) → Option (JValue N)
+  | some (.obj kvs) => some (.obj kvs)
+  | _ => none
+
+/-- The dictionaries that reach the type/name lookup of RestoreObject (configobject.cpp:509-521), in file order; a
+    record RestoreObject refuses is skipped (its exception stays in the WorkQueue). -/
+def restoreObjectsM {N : Type} (c : NumCodec N) (chunks : List Bytes) : Option (List (JValue N)) :=
+  (restoreItems chunks).map (fun items => items.filterMap (fun p => asDict (icingaDecodeL c p)))
+
+/-- What the probe object shows after RestoreObjects: `apply p` = the value record `p` writes into it (`none`: the
+    record does not touch it).  The records are applied by parallel workers; for files with at most one applicable
+    record (all the specification speaks about) the order does not matter — the model takes file order. -/
+def stateObsM (apply : Bytes → Option Nat) (init : Nat) (chunks : List Bytes) : StateObs :=
+  match restoreItems chunks with
+  | none => .err
+  | some items =>
+    match (items.filterMap apply).getLast? with
+    | some k => .ok k
+    | none => .ok init
+
+/-- What one object held before DumpObjects / holds after RestoreObjects (the attributes the observer looks at). -/
+structure ObjState (V : Type) where
+  attempt : Nat      -- check_attempt
+  outLen : Nat       -- length of last_check_result.output
+  outGood : Nat      -- how many bytes of it are the byte that was written
+  value : V          -- last_check_result.command: an arbitrary value of the data model
+  deriving Repr, DecidableEq
+
+/-- "Every value placed in the state file is decoded by the receiver to an equal value": the file DumpObjects wrote
+    is never refused by RestoreObjects, and every object gets back exactly what it held — whatever the size of its
+    record and of the records before it.  `got = none`: RestoreObjects threw. -/
+def stateRoundtripSpec {V : Type} [DecidableEq V] (put : List (ObjState V)) (got : Option (List (ObjState V))) : Option Clause :=
+  match got with
+  | none => some .stateRoundtrip
+  | some g => if g = put then none else some .stateRoundtrip
+
+/-- The file itself is a sequence of canonical frames and nothing else (clause `writerFormat`). -/
+def stateFileSpec (file : Bytes) : Option Clause :=
+  match specFramesAll (file.length + 1) file with
+  | some _ => none
+  | none => some .writerFormat
+
 end Icinga.C20
